@@ -20,6 +20,27 @@ CLAIMED = {
             "bounded exhaustive exploration of call histories x ingredient subsets with frame (snapshot) oracle"),
 }
 
+CLAIMED["C01"] = (
+    "DESIGN.md §5 C01",
+    "Every glyph of every packed trie font is a checked state: all component chains of depth <= 3 over a 9 "
+    "(quick) / 14 (thorough) transform palette under 7 base shapes in 3 variants, every single and pair of "
+    "coordinate deviations from a 12-value palette, and a width palette, x both UFO libraries x roundTolerance "
+    "{None,0,0.25,0.5} x cffVersion {1,2}; the reloaded CFF/CFF2 outline and hmtx advance must equal the "
+    "independent resolver's result (exact ==, halves up).",
+    "Trusted: fontTools CFF reader/charstring interpreter; mc/outline_ref.py. Dyadic coordinates only; closed "
+    "contours; no zero-length segments.",
+    "bounded exhaustive enumeration of component tries / coordinate deviations against an independent outline resolver")
+CLAIMED["C05"] = (
+    "DESIGN.md §5 C05",
+    "BFS over kerning dictionaries (add-one-entry ops, 56 keys x value palette, depth 2, interacting keys only) x "
+    "8 group configurations x 11 environment switches, plus the complete 4-level exception lattice; in every state "
+    "the compiled GPOS is evaluated by an independent PairPos interpreter for every ordered pair of a 13-glyph "
+    "multi-script repertoire under every selectable script/language and compared with UFO kerning semantics; both "
+    "kern writers.",
+    "Trusted: mc/otl_ref.py (selftested), mc/kern_ref.py, fontTools.unicodedata. > 2 interacting entries per state "
+    "(beyond the lattice) and contextual kerning are outside the bound.",
+    "explicit-state BFS over kerning histories with a reference GPOS interpreter as oracle; confluence re-validation")
+
 NOT_APPLICABLE = {}
 
 
